@@ -58,6 +58,9 @@ def run(r: core.Run):
         for i, o in enumerate(ops):
             if o.startswith("X ") and impl[i] != "err":
                 bad.append(i)
+            # a statement that fails by itself (a graph that does not exist, twice) and does not return, or panics
+            if o.startswith("C ") and impl[i].split(" ")[0].startswith(("hang", "panic")):
+                bad.append(i)
         return bad
 
     if r.replay_input is not None:
@@ -108,6 +111,14 @@ def run(r: core.Run):
         if kv(o, "text") in seen_txt:
             continue
         seen_txt.add(kv(o, "text"))
+        if o.startswith("C "):
+            r.violation({"protocol": "faults", "text": text_of(o), "outcome": impl[i][:200],
+                         "what": "the statement fails by itself (the driver reports errors: graphs that do not exist) and does not end with an "
+                                 f"error in bounded time: {impl[i].split(' ')[0]}", "how_to_replay": "./check C20 --replay <this file>"})
+            done += 1
+            if done >= 3:
+                break
+            continue
         r.violation({"protocol": "faults", "text": text_of(o), "failed_call": kv(o, "call"), "position": kv(o, "at"),
                      "elements_before_failure": kv(o, "after"), "cfg": kv(o, "cfg"), "outcome": impl[i],
                      "what": f"driver call {kv(o, 'call')} (#{kv(o, 'at')}) failed and the statement ended with {impl[i]!r} instead of an error",
